@@ -295,15 +295,23 @@ func c13Case(c *Ctx, id, stack string, items []string) {
 		}
 		after := c13Dump(mem)
 		// ---- (a) hidden regular files of the underlying filesystem are untouched
+		// "individually": RemoveAll / Rename of something ABOVE a hidden file is not a statement of
+		// C13 (normally a directory; on an ill-formed MemMapFs tree also a regular file that has
+		// entries below it)
 		exempt := func(p string) bool { return false }
 		if name == "RemoveAll" || name == "Rename" {
 			d := env.memPath(string(unhx(f[3])))
-			if e, ok := before[d]; ok && e.dir {
+			if e, ok := before[d]; ok {
 				d2 := ""
 				if name == "Rename" {
 					d2 = env.memPath(string(unhx(f[4])))
 				}
-				exempt = func(p string) bool { return under(d, p) || (d2 != "" && under(d2, p)) }
+				exempt = func(p string) bool {
+					if under(d, p) && (e.dir || p != d) {
+						return true
+					}
+					return d2 != "" && under(d2, p) && (e.dir || p != d2)
+				}
 			}
 		}
 		var ps []string
@@ -683,6 +691,12 @@ func runC13(c *Ctx) {
 	c13Case(c, "d0", "re:0(mem)", []string{"0 0 Create 2f782e646174", "0 - HClose 0", "0 1 Create 2f612e747874", "0 - HClose 1",
 		"0 - Chtimes 2f782e646174 1000000000", "0 - Chtimes 2f612e747874 1000000000", "0 - Chtimes 2f 1000000000",
 		". 2 OpenFile 2f 0 0", ". - HReaddirnames 2 -1", ". 3 Open 2f", ". - HReaddirnames 3 -1"})
+	// directed: a name below a hidden regular file (MemMapFs adopts the file as a parent directory)
+	below := []string{"0 0 Create 2f782e646174", "0 - HWrite 0 686964", "0 - HClose 0", "0 - Chtimes 2f782e646174 1000000000", "0 - Chtimes 2f 1000000000", "snap 0"}
+	c13Case(c, "d1", "re:0(mem)", append(append([]string{}, below...), ". 1 Create 2f782e6461742f612e747874", "snap 0"))
+	c13Case(c, "d2", "re:0(mem)", append(append([]string{}, below...), ". - Mkdir 2f782e6461742f63 493", "snap 0"))
+	c13Case(c, "d3", "re:0(mem)", append(append([]string{}, below...), ". - MkdirAll 2f782e6461742f632f63 493", "snap 0"))
+	c13Case(c, "d4", "re:0(mem)", append(append([]string{}, below...), ". 1 Create 2f612e747874", ". - HClose 1", ". - Rename 2f612e747874 2f782e6461742f612e747874", "snap 0"))
 	for i := 0; i < n; i++ {
 		st := fmt.Sprintf("re:%d(mem)", i%3)
 		switch i % 12 {
